@@ -142,6 +142,22 @@ impl Prop for C07 {
             }
             conns.push(conn::build(r, ck, *c, *s, &o));
         }
+        // successor connections (HTTP and TLS analyzers): a later connection reuses the 4-tuple of an earlier one
+        // (port reuse), with new sequence numbers and new content, after the earlier one has ended or has simply
+        // stopped half-way; its packets all come after the predecessor's
+        let mut successors: Vec<(usize, usize)> = vec![]; // (predecessor, successor)
+        if matches!(kind, Kind::Http | Kind::Tls) && r.chance(1, 5) {
+            let pi = r.usize_below(conns.len());
+            let ck = kinds_for(kind, r);
+            let succ = conn::build(r, ck, conns[pi].client, conns[pi].server, &o);
+            if r.chance(1, 2) && conns[pi].steps.len() > 4 {
+                // the predecessor stops half-way
+                let keep = r.urange(3, conns[pi].steps.len() - 1);
+                conns[pi].steps.truncate(keep);
+            }
+            conns.push(succ);
+            successors.push((pi, conns.len() - 1));
+        }
         // fault: idle periods longer than a flow TTL (TLS 20 s, HTTP 60 s, uptime 600 s) in the middle of a
         // connection; the isolated replay happens at the same simulated times, so expiry is the same in both runs
         if r.chance(1, 5) {
@@ -153,7 +169,18 @@ impl Prop for C07 {
             }
         }
         let lens: Vec<usize> = conns.iter().map(|c| c.steps.len()).collect();
-        let order = conn::merge_order(r, &lens, mode);
+        let mut order = conn::merge_order(r, &lens, mode);
+        for (pi, si) in &successors {
+            // move every packet of the successor behind the last packet of its predecessor
+            if let Some(last_p) = order.iter().rposition(|c| c == pi) {
+                let early = order[..last_p].iter().filter(|c| *c == si).count();
+                order = order.iter().enumerate().filter(|(i, c)| !(*i < last_p && *c == si)).map(|(_, c)| *c).collect();
+                let at = order.iter().rposition(|c| c == pi).map(|p| p + 1).unwrap_or(0);
+                for _ in 0..early {
+                    order.insert(at, *si);
+                }
+            }
+        }
         Scn { kind, cap: 2 * conns.len() + 4 + r.usize_below(50), conns, order, via_loop: r.chance(1, 4) }
     }
 
@@ -173,6 +200,9 @@ impl Prop for C07 {
         }
         if s.conns.iter().any(|c| c.kind == ConnKind::Garbage) {
             st.fault("garbage_connection");
+        }
+        if s.conns.iter().enumerate().any(|(i, c)| s.conns[..i].iter().any(|p| p.client == c.client && p.server == c.server)) {
+            st.fault("four_tuple_reused_by_a_later_connection");
         }
         if s.conns.iter().any(|c| c.steps.iter().any(|x| x.dt_ns >= 20_000_000_000)) {
             st.fault("idle_beyond_a_flow_ttl");
